@@ -231,3 +231,37 @@ Proof.
   intros k Hk. apply burst_ge_guarded; [exact Hk|exact ratio_ok_10|].
   change (2 ^ 40)%N with 1099511627776%N in Hk. change (2 ^ 52)%N with 4503599627370496%N. lia.
 Qed.
+
+(* ------------------------------------------------------------------ the burst sentence under the guard *)
+From UPF Require Import Proofs.QerProofs.
+From Coq Require Import List.
+Import ListNotations.
+
+(* a burst duration for which the float product is safe for every 40-bit rate *)
+Definition dur_ok (d : N) : bool := andb (ratio_ok d) (d <? 32768)%N.
+
+Lemma burst_ge_dur : forall k d : N, (k < 2 ^ 40)%N -> dur_ok d = true -> (burst_exact k d <= calc_burst k d)%N.
+Proof.
+  intros k d Hk Hd. unfold dur_ok in Hd. apply andb_true_iff in Hd. destruct Hd as [Hr Hd]. apply N.ltb_lt in Hd.
+  apply burst_ge_guarded; [exact Hk|exact Hr|].
+  change (2 ^ 40)%N with 1099511627776%N in Hk. change (2 ^ 52)%N with 4503599627370496%N. nia.
+Qed.
+
+Lemma c09_burst_partial : forall conf q, lvl_ok q -> r40 q ->
+  exists c1 c2, add_qer conf q = [c1; c2] /\ bursts_min conf q c1 c2 /\
+                (dur_ok (c_dur (cfg_for conf (q_qfi q))) = true -> bursts_cover conf q c1 c2).
+Proof.
+  intros conf q Hl (H1 & H2 & H3 & H4). exists (ul_cmd conf q), (dl_cmd conf q).
+  split; [now apply add_qer_two|]. split; [apply bursts_min_cmds|]. intros Hd.
+  pose proof (bursts_rate_cmds conf q) as B. cbv zeta in B. destruct B as (B1 & B2 & B3 & B4 & B5 & B6).
+  unfold bursts_cover. cbv zeta.
+  repeat split; (eapply N.le_trans; [apply burst_ge_dur; [|exact Hd]|]); eassumption.
+Qed.
+
+(* UP4: the burst duration is the constant 10 ms, so the sentence holds outright *)
+Lemma c09_up4_burst : forall mbr gbr, (mbr < 2 ^ 40)%N ->
+  (burst_exact mbr 10 <= m_pburst (up4_meter_cfg mbr gbr))%N.
+Proof. intros mbr gbr H. unfold up4_meter_cfg. cbn [m_pburst]. now apply burst_10ms_ge. Qed.
+
+Lemma dur_ok_examples : dur_ok 10 = true /\ dur_ok 1 = true /\ dur_ok 1000 = true /\ dur_ok 20 = true /\ dur_ok 87 = false.
+Proof. repeat split; vm_compute; reflexivity. Qed.
